@@ -189,7 +189,7 @@ def structured_hostile(rng, nodes, n):
     me = bytes.fromhex(nodes[n]["id"])
     other = bytes.fromhex(nodes[(n + 1) % len(nodes)]["id"])
     haddr = bytes.fromhex(nodes[(n + 1) % len(nodes)]["addr"]) if rng.random() < 0.8 else b"not-an-addr"
-    ids = [me, other, b"zz", b"", b"ghost"]
+    ids = [me, other, b"zz", b"", b"ghost", b"\xdb", b"n\xff", b"\xed\xa0\x80", b"caf\xc3\xa9"]   # incl. ids that are not valid UTF-8 (finding U1)
     if rng.random() < 0.4:
         ents = [{"id": rng.choice(ids), "addr": rng.choice([b"10.9.9.9:1", b"", haddr]), "ver": gver(rng), "left": rng.random() < 0.3}
                 for _ in range(rng.randint(0, 5))]
@@ -339,6 +339,11 @@ def run(ctx):
         else:
             b = mutate(rng, bytes.fromhex(rng.choice(harvested))) if harvested and rng.random() < 0.7 else bytes(rng.randrange(256) for _ in range(rng.randint(0, 100)))
             raws.append({"id": "r%d" % i, "bytes": b.hex(), "stream": False})
+    cdir = os.path.join(VERIF, "corpus", ID)
+    if os.path.isdir(cdir):
+        for f in sorted(os.listdir(cdir)):
+            if f.endswith(".json"):
+                raws.insert(0, json.load(open(os.path.join(cdir, f))))
     # a peer that joins properly and then never reads the reply (a full socket buffer in real life)
     raws.append({"id": "noread-join", "bytes": "", "stream": True, "noread": True})
     raws.append({"id": "noread-join-junk", "bytes": bytes(rng.randrange(256) for _ in range(40)).hex(), "stream": True, "noread": True})
